@@ -11,9 +11,7 @@ def run(out, tier, seed):
                 "key x local/secret key), PBKW (passwords incl. empty/NUL/1 KiB x small-cost lattice, plus default parameters), PKE (hundreds "
                 "to thousands of seals per recipient so rare values of the internal randomness occur), each wrap -> to_string -> length law "
                 "-> parse -> unwrap validated against L0 + Versions.tla; distinct = distinct interned byte strings; non-trivial = successful wraps")
-    r = C.tlc("MC_Ideal", "MC_Ideal_%s.cfg" % tier, "mc", "c05-mc", workers=12, timeout=7200, heap="16g")
-    C.tlc_must_pass(r, "MC_Ideal")
-    out.add_tlc(r)
+    r = C.ideal_mc(out, tier, "c05", ("blobs",))
     d = C.ensure_dir(os.path.join(C.BUILD, "c05"))
     f = os.path.join(d, "trace.ndjson")
     p = C.harness(["paserk", "--mode", "roundtrip", "--out", f, "--tier", tier, "--seed", str(seed)], timeout=7200)
